@@ -1,12 +1,17 @@
 #!/bin/bash
 # usage: eval_seeded.sh [id ...]   runs, for every listed (default: all) seeded change, the checks named in seeded/catalogue.tsv against a
-# scratch copy of /repo with the change applied, and records the outcome in seeded/<id>/result.txt
+# scratch copy of /repo with the change applied, and records the outcome in seeded/<id>/result.txt.  EVAL_P changes run at once.
 cd "$(dirname "$0")/.."
+one() {
+  id=$1; checks=$2
+  out=$(VERIF_JOBS=${VERIF_JOBS:-4} tools/try_mutant.sh seeded/$id/patch.diff ${checks//,/ } 2>&1)
+  echo "$out" > seeded/$id/result.txt
+  echo "== $id"; echo "$out"
+}
+export -f one
 while IFS=$'\t' read -r id prop checks needs; do
   [ -z "$id" ] && continue
   if [ $# -gt 0 ]; then case " $* " in *" $id "*) ;; *) continue;; esac; fi
   [ -d seeded/$id ] || continue
-  out=$(tools/try_mutant.sh seeded/$id/patch.diff ${checks//,/ } 2>&1)
-  echo "$out" > seeded/$id/result.txt
-  echo "== $id"; echo "$out"
-done < seeded/catalogue.tsv
+  echo "$id $checks"
+done < seeded/catalogue.tsv | xargs -P ${EVAL_P:-3} -L 1 bash -c 'one $0 $1'
